@@ -191,6 +191,11 @@ type OrderExplorer struct {
 	Run   func()
 	Visit func(choices []int, reverse bool, pts []point)
 
+	// MaxExecs caps the executions of this exploration (0 = no cap); Capped reports that
+	// the cap was hit (the exploration is then not exhaustive and is reported as such).
+	MaxExecs int
+	Capped   bool
+
 	Execs     int
 	Points    int // choice points met over all executions (transitions)
 	MaxPoints int
@@ -222,6 +227,10 @@ func (e *OrderExplorer) Explore() {
 }
 
 func (e *OrderExplorer) explore(prefix []int, dev int) {
+	if e.MaxExecs > 0 && e.Execs >= e.MaxExecs {
+		e.Capped = true
+		return
+	}
 	choices, pts := e.one(prefix, false)
 	if dev >= e.Bound {
 		return
